@@ -127,3 +127,61 @@ From BB Require Gen.Effects Proofs.Effects Proofs.EffectsOk.
 Theorem C12_assemble_is_a_function_of_its_inputs : Proofs.Effects.summary_ok Gen.Effects.summary = true.
 Proof. exact Proofs.EffectsOk.summary_ok_holds. Qed.
 Print Assumptions C12_assemble_is_a_function_of_its_inputs.
+From BB Require Import Proofs.AcceptClass Proofs.Accept Proofs.AcceptAll.
+
+(* a third family of counterexamples (found while proving the positive half; the real assembler agrees): `%offset` of a CONSTANT --
+   K = 4098 / add x8, x8, x9 / beq x0, x0, K  assembles without -c (K - 4 = 4094) and is refused with it (K - 2 = 4096).
+   Like K2 it is position arithmetic on an absolute value, with no label and no align involved. *)
+Definition ex14 : list litem :=
+  [(exL 1, IConst "K" (EArith (ANum 4098))); (exL 2, exR3 "add" "x8" "x8" "x9");
+   (exL 3, IInstr "BTypeInstruction" "beq" [("rs1", FReg (AStr "x0")); ("rs2", FReg (AStr "x0")); ("imm", FExpr (EOff "K"))] false)]%string.
+Theorem C12_refuted_offset_of_constant :
+  (exists r, assemble_items ex14 [] [] false = Done r) /\ assemble_items ex14 [] [] true = Fail (PAsm (exL 3)).
+Proof. split. eexists; vm_compute; reflexivity. vm_compute. reflexivity. Qed.
+Print Assumptions C12_refuted_offset_of_constant.
+
+(* THE POSITIVE HALF.  On the class of programs that avoids the refutations the statement holds (Proofs/Accept*.v):
+   `accept_class_gen true (names of the given constants) its` (Proofs/AcceptClass.v, a boolean) says
+     - every item is parser-shaped (okb 0 of Proofs/NoRaw.v) and has a non-negative size,
+     - there is no `align` item,
+     - every expression in an item (instruction immediates, li, data values of db..dd / pack) is label-free and not position-relative
+       (`lf`: no name in it is a label of the program, no %offset),
+       EXCEPT the target `%offset(L)` of a B-type / J-type instruction (which then carries no is_auipc_jump field) and of the
+       pseudo-instructions beqz .. bleu, j, jal, call, tail, where L is a label of the program and not a constant,
+       and EXCEPT a data value that is exactly the name of such a label (`dw L`: its offset only moves towards 0),
+     - a jalr item carries its is_auipc_jump field (every parsed item does).
+   Initial labels: none (labels0 = []); initial constants: any; total size below 2 GiB (call / tail wrap the distance to 32 bits). *)
+Theorem C12_accepts_without_align_and_label_arithmetic :
+  forall its consts0 rU,
+    accept_class_gen true (map fst consts0) its = true -> total its < 2 ^ 31 ->
+    assemble_items its consts0 [] false = Done rU -> exists rC, assemble_items its consts0 [] true = Done rC.
+Proof. exact accept_monotone_calls. Qed.
+Print Assumptions C12_accepts_without_align_and_label_arithmetic.
+(* without call / tail no bound on the size is needed *)
+Theorem C12_accepts_without_calls :
+  forall its consts0 rU,
+    accept_class_gen false (map fst consts0) its = true ->
+    assemble_items its consts0 [] false = Done rU -> exists rC, assemble_items its consts0 [] true = Done rC.
+Proof. exact accept_monotone. Qed.
+Print Assumptions C12_accepts_without_calls.
+
+(* non-vacuity: top: add x8,x8,x9 / beqz x8, end / li x9, K / lw x10, 8(x8) / jal top / call top / tail end / end: dw 7 / dh end
+   is in the class (with a given constant K = 5), assembles in both modes, and -c compresses seven of its instructions (30 bytes -> 14) *)
+Example C12_accepts_example :
+  let its := [(exL 1, ILabel "top"); (exL 2, exR3 "add" "x8" "x8" "x9");
+              (exL 3, IPseudo "beqz" ["x8"; "end"] (PErr (PRaw OtherExn)));
+              (exL 4, IPseudo "li" ["x9"; "K"] (POk (EArith (AName "K"))));
+              (exL 5, IInstr "ITypeInstruction" "lw" [("rd", FReg (AStr "x10")); ("rs1", FReg (AStr "x8"));
+                                                      ("imm", FExpr (EArith (ANum 8))); ("is_auipc_jump", FBool false)] false);
+              (exL 6, IPseudo "jal" ["top"] (PErr (PRaw OtherExn)));
+              (exL 7, IPseudo "call" ["top"] (PErr (PRaw OtherExn)));
+              (exL 8, IPseudo "tail" ["end"] (PErr (PRaw OtherExn)));
+              (exL 9, ILabel "end"); (exL 10, IShort "dw" (FExpr (EArith (ANum 7)))); (exL 11, IShort "dh" (FExpr (EArith (AName "end"))))]%string in
+  let c0 := [("K", 5)]%string in
+  accept_class_gen true (map fst c0) its = true /\ total its < 2 ^ 31 /\
+  (exists rU, assemble_items its c0 [] false = Done rU /\ r_labels rU = [("top", 0); ("end", 28)]%string) /\
+  (exists rC, assemble_items its c0 [] true = Done rC /\ r_labels rC = [("top", 0); ("end", 14)]%string).
+Proof.
+  cbv zeta. split. { vm_compute. reflexivity. } split. { vm_compute. reflexivity. }
+  split; eexists; split; vm_compute; reflexivity.
+Qed.
